@@ -13,6 +13,7 @@ from sa.astutil import call_name, guards_of, kwarg, parent_map, u
 from sa.defuse import ReachingDefs
 from sa.model import AnalysisError, own_calls, own_nodes
 from sa.resolve import bind_args
+from sa.norm import Normalizer, linear_equal
 from .common import Ctx, plumbing
 
 MOD = "_feats"
@@ -184,8 +185,45 @@ def run(ctx: Ctx):
                       for c in ast.walk(v) if isinstance(c, ast.Compare))
         return nonneg and ordered
     base_ok = any(isinstance(n, ast.Assign) and _base(n.value) for n in own_nodes(ch.node))
+    # ... on every path: the mask that enters the slice test carries the exclusion whichever arm built it
+    rdc = ReachingDefs(ch.node)
+
+    def _carries(d, depth=0):
+        if d.value is None or depth > 6:
+            return False
+        if _base(d.value):
+            return True
+        conj = []
+
+        def flat(e):
+            if isinstance(e, ast.BinOp) and isinstance(e.op, ast.BitAnd):
+                flat(e.left), flat(e.right)
+            else:
+                conj.append(e)
+        flat(d.value)
+        return any(isinstance(x, ast.Name) and rdc.defs_of(x) and all(_carries(d2, depth + 1) for d2 in rdc.defs_of(x)) for x in conj)
+    tests = [n for n in own_nodes(ch.node) if isinstance(n, ast.Assign) and
+             {_col_role(x, refs_names, slices_name) for x in ast.walk(n.value)} >= {"slice_start", "slice_end"}]
+    uncovered = []
+    for n in tests:
+        conj = []
+
+        def flat2(e):
+            if isinstance(e, ast.BinOp) and isinstance(e.op, ast.BitAnd):
+                flat2(e.left), flat2(e.right)
+            else:
+                conj.append(e)
+        flat2(n.value)
+        ok_ = any(isinstance(x, ast.Name) and rdc.defs_of(x) and all(_carries(d) for d in rdc.defs_of(x)) for x in conj) or _base(n.value)
+        if not ok_:
+            uncovered.append(n)
+    if not tests:
+        col.undecided(f"{where}: no slice test (a conjunction over slice start and end) was recognised")
+    base_ok = base_ok and not uncovered
     col.ob("G12", "S4", f"{where}::missing-boundaries-excluded", base_ok,
-           "tokens with a negative (missing) boundary or end < start are not excluded before the slice test", rel, ch.line)
+           "tokens with a negative (missing) boundary or end < start are not excluded before the slice test on every path"
+           + (f" (the mask entering `{u(uncovered[0])[:70]}` can come from a definition without the exclusion, e.g. when "
+              f"ref_lens is omitted)" if uncovered else ""), rel, uncovered[0].lineno if uncovered else ch.line)
 
     # ---- S5 driver: names and row lengths ------------------------------------------------------------------------
     wrel = "command_line.py"
@@ -302,6 +340,7 @@ def run(ctx: Ctx):
     _ref_policy(ctx, sl)
     # ---- S9 'fixed' policy: the k-th window and whether it is kept == the documented rule, per option valuation -----
     _fixed_policy(ctx, sl)
+    _lobe_clamp_exact(ctx, sl)
     _driver_passes_feature_length(ctx)
     plumbing(ctx, "S1")
     return dict(
@@ -609,12 +648,49 @@ def pm_of(f):
     return pm
 
 
+
+def _lobe_clamp_exact(ctx: Ctx, sl):
+    """S11 (ali policy, valid_only): with a total lobe reach of E segments the windows are the NN - E index pairs (i, i + E)
+    that exist, none when E >= NN. The code takes `x[: NN - offs]` with offs = min(E, C): for the count to be max(NN - E, 0)
+    the clamp C must be exactly the segment count NN - a smaller clamp turns 'no window fits' into min(NN - C, ...) spurious
+    windows spanning fewer segments than requested (a larger one makes the stop negative: rule G28)."""
+    col = ctx.col
+    rel = sl.module.relname
+    rd = ReachingDefs(sl.node)
+    nz = Normalizer()
+    sites = []
+    for n in own_nodes(sl.node):
+        if not isinstance(n, ast.Subscript) or not isinstance(n.slice, ast.Slice) or n.slice.lower is not None:
+            continue
+        up = n.slice.upper
+        if not (isinstance(up, ast.BinOp) and isinstance(up.op, ast.Sub) and isinstance(up.right, ast.Name)):
+            continue
+        for d in rd.defs_of(up.right):
+            v = d.value
+            if d.kind == "assign" and isinstance(v, ast.Call) and call_name(v) == "min" and len(v.args) == 2:
+                caps = [a for a in v.args if linear_equal(a, up.left, nz)]
+                near = [a for a in v.args if {x.id for x in ast.walk(a) if isinstance(x, ast.Name)} & {x.id for x in ast.walk(up.left) if isinstance(x, ast.Name)}]
+                if near:
+                    sites.append((n, d, bool(caps), u(near[0])))
+    seen = {}
+    for n, d, ok, cap in sites:
+        seen.setdefault((d.line, cap), (n, d, ok, cap))
+    for (_, cap), (n, d, ok, _) in sorted(seen.items()):
+        col.ob("G12", "S11", f"{rel}::slice_spect_data::lobe-reach-clamped-at-the-segment-count", ok,
+               f"`{u(d.stmt)[:80]}` clamps the lobe reach at `{cap}` but `{u(n)[:40]}` takes `{u(n.slice.upper)}` entries: when the "
+               f"lobes reach past all segments the clamp leaves {u(n.slice.upper.left)} - ({cap}) windows although none fits "
+               f"(valid_only promises every window has its full lobes inside one sequence)", rel, d.line, sample=dict(clamp=cap, stop=u(n.slice.upper)))
+    col.floor("lobe_clamp_sites", len(seen), 1)
+
+
 def _mutants():
     from selftest.mutate import Mutant as M
     F = "_feats.py"
     C = "command_line.py"
     return [
         M("ref-policy-without-feature-length", "command_line.py", "slices, _ = slicer(refs, None, torch.tensor([feats.size(1)]))", "slices, _ = slicer(refs)", "ref-policy-slicer-gets-the-feature-length"),
+        M("lobe-clamp-one-short", "_feats.py", "offs = min((int(do_left) + int(do_right)) * lobe_size, NN)", "offs = min((int(do_left) + int(do_right)) * lobe_size, NN - 1)", "lobe-reach-clamped-at-the-segment-count"),
+        M("exclusion-only-with-ref-lens", "_feats.py", "        mask = ref_lens.unsqueeze(1) > arange\n    mask = mask & (refs[..., 1:] >= 0).all(2) & (refs[..., 2] >= refs[..., 1])", "        mask = ref_lens.unsqueeze(1) > arange\n        mask = mask & (refs[..., 1:] >= 0).all(2) & (refs[..., 2] >= refs[..., 1])", "missing-boundaries-excluded"),
         M("lobe-reaches-past-the-segments", "_feats.py", "offs = min((int(do_left) + int(do_right)) * lobe_size, NN)", "offs = (int(do_left) + int(do_right)) * lobe_size", "slice-stops-cannot-go-negative"),
         M("repaired:boundaries-relative-to-slice-start", "_feats.py", "chunked[..., 1:] += slices[..., 0].view(N, 1, 1).expand(N, R, 2)", "chunked[..., 1:] -= slices[..., 0].view(N, 1, 1).expand(N, R, 2)", "", twin=True),
         M("gather-after-indexing-away", F, ".gather(1, (in_lens - 1).clamp_min_(0).view(N, 1))", ".select(1, 0).gather(1, (in_lens - 1).clamp_min_(0).view(N, 1))",
